@@ -72,8 +72,13 @@ def make_recipes(seed, n_random):
                 for x in G.walk(e)):
             continue        # degenerate in Python source (C13's business, not C17's)
         e = _strip_bigs(e)
+        if j % 2 == 0 and {"x", "y"} <= G.variables_of(e):
+            # free variables whose names differ only in case (x, X): their relative order must
+            # not depend on anything process-specific either
+            from .c17_worker import NS
+            e = eval(G.src(e).replace("Variable('y')", "Variable('X')"), NS)
         names = sorted(G.variables_of(e))
-        listed = [n for n in names if rng.random() < 0.5]
+        listed = [n for n in names if rng.random() < 0.5 and not ("X" in names and n in "xX")]
         rng.shuffle(listed)
         allvars = listed + [n for n in names if n not in listed]
         recipes.append({"id": f"c{j}", "kind": "compiled", "src": G.src(e), "vars": listed,
